@@ -210,9 +210,8 @@ private:
 
     void read_binary_bit_row( byte_t* dst )
     {
-        this->_io_dev.read( dst
-                    , this->_scanline_length
-                    );
+        io_error_if( this->_io_dev.read( dst, this->_scanline_length ) != static_cast< std::size_t >( this->_scanline_length )
+                       , "Unexpected end of image data." );
 
         _negate_bits( dst, this->_scanline_length );
         _mirror_bits( dst, this->_scanline_length );
@@ -221,9 +220,8 @@ private:
 
     void read_binary_byte_row( byte_t* dst )
     {
-        this->_io_dev.read( dst
-                    , this->_scanline_length
-                    );
+        io_error_if( this->_io_dev.read( dst, this->_scanline_length ) != static_cast< std::size_t >( this->_scanline_length )
+                       , "Unexpected end of image data." );
     }
 
     void skip_binary_row()
